@@ -18,7 +18,7 @@ import ast
 
 from ..align import (IN, Align, Arr, Opaque, Scalar, fmt_space, same_space,
                      sorted_dir)
-from ..core import AnalysisError
+from ..core import AnalysisError, walk_own
 from ..defuse import DefUse, Terms, show, specialise, walk_term
 from ..defuse import key as tkey
 from ..tutil import (Sym, TTUnknown, find_calls, is_flip, lin, np_call,
@@ -328,26 +328,87 @@ def _check_tdc(ctx, tdc):
                 "result", node=rnode, case=case)
 
 
-FLOAT_TYPES = {"np.float32", "np.float64", "float", "np.float16",
-               "np.longdouble", "np.float_", "np.double"}
-INT_SUPERSETS = {"np.integer", "np.number"}
+FLOAT_NAMES = {"float32", "float64", "float", "float16", "longdouble",
+               "float_", "double", "single", "half", "f4", "f8", "f2"}
+INT_SUPERSET_NAMES = {"integer", "number"}
+
+
+def _float_type(t):
+    if t[0] in ("name", "free", "attr"):
+        nm = t[1] if t[0] != "attr" else t[2]
+        return isinstance(nm, str) and nm.split(".")[-1] in FLOAT_NAMES
+    if t[0] == "const" and isinstance(t[1], str):
+        return t[1] in FLOAT_NAMES
+    if t[0] == "call" and t[1] == "numpy.dtype" and t[2]:
+        return _float_type(t[2][0])
+    return False
+
+
+def _float_conversion(t):
+    """source term of a conversion to a float dtype, else None"""
+    if t[0] == "mcall" and t[2] == "astype":
+        ty = t[3][0] if t[3] else dict(t[4]).get("dtype")
+        return t[1] if ty is not None and _float_type(ty) else None
+    if t[0] == "call" and t[1] in ("numpy.asarray", "numpy.array",
+                                   "numpy.asanyarray",
+                                   "numpy.asfarray") and t[2]:
+        ty = dict(t[3]).get("dtype") or (t[2][1] if len(t[2]) > 1 else None)
+        if t[1] == "numpy.asfarray" or (ty is not None and _float_type(ty)):
+            return t[2][0]
+    if t[0] == "call" and t[1].startswith("numpy.") and \
+            t[1].split(".")[-1] in FLOAT_NAMES and t[2]:
+        return t[2][0]
+    return None
+
+
+def _covers_all_integers(t, outcome):
+    """condition 'np.issubdtype(<x>.dtype, np.integer | np.number)' true"""
+    return bool(outcome) and t[0] == "call" and \
+        t[1] == "numpy.issubdtype" and len(t[2]) == 2 and \
+        t[2][1][0] in ("name", "free") and \
+        t[2][1][1].split(".")[-1] in INT_SUPERSET_NAMES
+
+
+def _same_slice(a, b):
+    """slice(x, y) written as a[x:y] or as a slice object"""
+    def norm(t):
+        if t[0] == "slice":
+            return (t[1], t[2], t[3])
+        if t[0] == "call" and t[1] == "builtins.slice":
+            xs = list(t[2]) + [("const", None)] * (3 - len(t[2]))
+            if len(t[2]) == 1:
+                xs = [("const", None), t[2][0], ("const", None)]
+            return tuple(xs[:3])
+        return t
+    return norm(a) == norm(b)
 
 
 def _check_integer_negation(ctx, tdc, p_scores):
     """Negating an integer array can wrap (unsigned always, signed at the
     dtype minimum): the array negated for the descending sort must have been
     converted to a float dtype under a guard that covers every integer
-    dtype (or unconditionally)."""
+    dtype (or unconditionally).  Judged on terms: the conversion is any
+    astype / asarray / numpy float constructor to a float dtype, its guard
+    the necessary conditions of the converting statement with temporaries
+    resolved."""
     prog = ctx.prog
     du = DefUse(prog, tdc)
+    T = Terms(du)
     from ..cfg import CFG
+    from ..astutil import cond_terms
     cfg = CFG(tdc.node)
     sites = []
-    for n in ast.walk(tdc.node):
-        if isinstance(n, ast.UnaryOp) and isinstance(n.op, ast.USub) and \
-                isinstance(n.operand, ast.Name):
-            roots = du.backward_roots(n.operand)
+    for n in walk_own(tdc.node):
+        if isinstance(n, ast.UnaryOp) and isinstance(n.op, ast.USub):
+            roots = set()
+            for nm in ast.walk(n.operand):
+                if isinstance(nm, ast.Name):
+                    roots |= du.backward_roots(nm)
             if ("param", p_scores) in roots:
+                sites.append(n)
+        elif isinstance(n, ast.Call):
+            t = T.of(n)
+            if t[0] == "call" and t[1] == "numpy.negative" and n.args:
                 sites.append(n)
     if not sites:
         ctx.ok("C01e-integer-negation", tdc,
@@ -355,43 +416,45 @@ def _check_integer_negation(ctx, tdc, p_scores):
                "possible)")
         return
     for n in sites:
-        defs = du.defs_of(n.operand)
+        operand = n.operand if isinstance(n, ast.UnaryOp) else n.args[0]
+        names = [nm for nm in ast.walk(operand) if isinstance(nm, ast.Name)]
         convs = []
-        for d in defs:
-            v = d.value
-            if d.kind == "assign" and isinstance(v, ast.Call) and isinstance(
-                    v.func, ast.Attribute) and v.func.attr == "astype" and \
-                    v.args and ast.unparse(v.args[0]) in FLOAT_TYPES:
-                convs.append(d)
+        direct = _float_conversion(T.of(operand))
+        if direct is not None:
+            ctx.ok("C01e-integer-negation", tdc,
+                   "the negated array is converted to float in place")
+            continue
+        for nm in names:
+            for d in du.defs_of(nm):
+                if d.kind == "assign" and d.value is not None and \
+                        _float_conversion(T.of(d.value)) is not None:
+                    convs.append(d)
         if not convs:
             ctx.fail("C01e-integer-negation", tdc,
-                     f"-{n.operand.id} (sort key for desc=True)",
+                     f"-{ast.unparse(operand)[:40]} (sort key for "
+                     "desc=True)",
                      "the score array is negated without a preceding "
                      "conversion of integer scores to a float dtype: "
                      "unsigned scores and the minimum of a signed dtype "
                      "wrap around and are ranked wrongly", node=n)
             continue
+        # conditions under which the negation runs anyway do not restrict
+        # the conversion relative to it (earlier guard clauses that raise,
+        # the direction flag)
+        at_site = {(tkey(t), o) for t, o in cond_terms(cfg, T, n)}
         for d in convs:
-            gs = cfg.guards(d.node)
-            ok = True
-            why = ""
-            for test, pol in gs:
-                txt = ast.unparse(test)
-                cover = (isinstance(test, ast.Call)
-                         and ast.unparse(test.func) == "np.issubdtype"
-                         and len(test.args) == 2
-                         and ast.unparse(test.args[1]) in INT_SUPERSETS
-                         and pol)
-                if not cover:
-                    ok = False
-                    why = (f"the conversion is guarded by '{txt}', which "
-                           "does not cover every integer dtype; scores of "
-                           "the remaining integer dtypes are negated as "
-                           "integers and wrap around")
-            ctx.check(ok, "C01e-integer-negation", tdc,
+            conds = [(t, o) for t, o in cond_terms(cfg, T, d.node)
+                     if (tkey(t), o) not in at_site]
+            bad = [(t, o) for t, o in conds
+                   if not _covers_all_integers(t, o)]
+            ctx.check(not bad, "C01e-integer-negation", tdc,
                       "integer scores are converted to float before they "
-                      "are negated for the descending sort", why,
-                      node=d.node)
+                      "are negated for the descending sort",
+                      "the conversion only runs under "
+                      f"{[(show(t, 60), o) for t, o in bad]}, which does "
+                      "not cover every integer dtype; scores of the "
+                      "remaining integer dtypes are negated as integers "
+                      "and wrap around", node=d.node)
 
 
 NARROW_TYPES = {"numpy.float32", "numpy.float16", "numpy.half",
@@ -743,6 +806,29 @@ def _check_running_min(ctx, f, du, T, loop, st, grp_t, p_fdr, p_tot):
             why = (f"group FDR selected with {show(sel, 80)}; the FDR of a "
                    "tie group must be taken where the running total is "
                    "largest (the threshold that includes the whole group)")
+        elif bf == ("param", p_fdr):
+            # fdr[start + argmax(num_total[start:stop])]: the same element
+            # addressed in the whole vector
+            lo = None
+            if grp_t[0] == "slice":
+                lo = grp_t[1]
+            elif grp_t[0] == "call" and grp_t[1] == "builtins.slice" and \
+                    len(grp_t[2]) >= 2:
+                lo = grp_t[2][0]
+            if lo is not None:
+                d = lin(sel) + lin(lo).scale(-1)
+                atoms = [(d.terms[k], c) for k, c in d.atoms.items()]
+                if d.const == 0 and len(atoms) == 1 and atoms[0][1] == 1:
+                    sc = np_call(atoms[0][0])
+                    if sc and sc[0] == "argmax" and sc[1]:
+                        tg = strip_conv(sc[1][0])
+                        ok_sel = (tg[0] == "sub"
+                                  and strip_conv(tg[1]) == ("param", p_tot)
+                                  and _same_slice(tg[2], grp_t))
+            if not ok_sel:
+                why = ("group FDR is read at " + show(sel, 100) + ", which "
+                       "is not the group's start plus the arg-max of the "
+                       "running totals over the group")
         else:
             why = f"group FDR is not read from fdr[group]: {show(g, 120)}"
     ctx.check(ok_sel, "C01c-group-fdr", f,
@@ -961,10 +1047,12 @@ def _check_registry(ctx):
     T = Terms(du)
     (node, t), = T.returns()
     ps = f.params
-    ok = (t[0] == "call" and t[1] == TDC and len(t[2]) >= 2
-          and t[2][0] == ("param", ps[0]) and t[2][1] == ("param", ps[1]))
-    kw = dict(t[3]) if t[0] == "call" else {}
-    ok = ok and kw.get("desc", ("const", True)) == ("const", True)
+    from ..tutil import bound_args
+    b = bound_args(prog, t) if t[0] == "call" and t[1] == TDC else None
+    tp = prog.func(TDC).params
+    ok = (b is not None and b.get(tp[0]) == ("param", ps[0])
+          and b.get(tp[1]) == ("param", ps[1])
+          and b.get("desc", ("const", True)) == ("const", True))
     ctx.check(ok, "C01-registry", f,
               "'tdc' registry entry forwards (scores, targets) to tdc with "
               "desc=True", f"registry lambda is {show(t, 120)}",
